@@ -302,6 +302,43 @@ example : ∃ h', SqiGen.Sponge.shake256.run SqiGen.Keccak.keccakF 1000 (List.re
     (List.replicate 200 9) 1 2 3 (by simp [SqiGen.Sponge.shake256.tlen]) List.length_replicate (by simp only [List.length_replicate]; omega)
     (by simp only [List.length_cons, List.length_nil]; omega)
 
+/-- the exported `SHAKE256(output, outputByteLen, input, inputByteLen)` (what `hash_to_challenge` and the library call), as
+    re-extracted (forward to the generated one-shot `shake256`, argument order from the C text): writes FIPS 202 SHAKE256(msg)
+    truncated to the requested length and nothing else -/
+theorem gen_SHAKE256_eq_spec (fuel : Nat) (h : List UInt8) (hoff outlen : Nat) (msg : List UInt8)
+    (s0 : Fips202.State) (t0 : List UInt8) (ia : Nat) (ta : List UInt8) (iq1 iq2 ic : Nat)
+    (ht0 : t0.length = SqiGen.Sponge.shake256.tlen) (hta : ta.length = 200) (hl : hoff + outlen ≤ h.length)
+    (hf : msg.length + outlen + 200 < fuel) :
+    ∃ h', SqiGen.Sponge.SHAKE256.run SqiGen.Keccak.keccakF fuel h hoff outlen msg msg.length s0 t0 ia ta iq1 iq2 ic = some h' ∧
+      SqiProofs.SpongeGen.Written h h' hoff outlen (Fips202.shake256 msg outlen) :=
+  gen_shake256_oneshot_eq_spec fuel h hoff outlen msg s0 t0 ia ta iq1 iq2 ic ht0 hta hl hf
+
+/-- the exported `SHAKE128(output, outputByteLen, input, inputByteLen)` (what `hash_to_challenge` and the library call), as
+    re-extracted (forward to the generated one-shot `shake128`, argument order from the C text): writes FIPS 202 SHAKE128(msg)
+    truncated to the requested length and nothing else -/
+theorem gen_SHAKE128_eq_spec (fuel : Nat) (h : List UInt8) (hoff outlen : Nat) (msg : List UInt8)
+    (s0 : Fips202.State) (t0 : List UInt8) (ia : Nat) (ta : List UInt8) (iq1 iq2 ic : Nat)
+    (ht0 : t0.length = SqiGen.Sponge.shake128.tlen) (hta : ta.length = 200) (hl : hoff + outlen ≤ h.length)
+    (hf : msg.length + outlen + 200 < fuel) :
+    ∃ h', SqiGen.Sponge.SHAKE128.run SqiGen.Keccak.keccakF fuel h hoff outlen msg msg.length s0 t0 ia ta iq1 iq2 ic = some h' ∧
+      SqiProofs.SpongeGen.Written h h' hoff outlen (Fips202.shake128 msg outlen) :=
+  gen_shake128_oneshot_eq_spec fuel h hoff outlen msg s0 t0 ia ta iq1 iq2 ic ht0 hta hl hf
+
+/-- `shake*_inc_ctx_clone` / `shake*_ctx_clone` as re-extracted (allocation size and memcpy size resolved from the C text): the clone
+    has the source's 25 lanes and, for the incremental context, the source's byte counter `s_inc[25]`; the non-incremental clone copies
+    25 lanes only (its context has no counter) -/
+theorem gen_ctx_clone_eq (src dest0 : Fips202.State × Nat) :
+    SqiGen.Sponge.shake256_inc_ctx_clone.run src dest0 = src ∧ SqiGen.Sponge.shake128_inc_ctx_clone.run src dest0 = src ∧
+    (SqiGen.Sponge.shake256_ctx_clone.run src dest0).1 = src.1 ∧ (SqiGen.Sponge.shake128_ctx_clone.run src dest0).1 = src.1 := by
+  have k : ∀ nl, 25 ≤ nl → (SqiGen.Sponge.memcpyCtx nl dest0 src).1 = src.1 := by
+    intro nl hnl
+    apply Vector.ext
+    intro i hi
+    simp [SqiGen.Sponge.memcpyCtx, show i < nl by omega]
+  have k2 : (SqiGen.Sponge.memcpyCtx 26 dest0 src).2 = src.2 := by simp [SqiGen.Sponge.memcpyCtx]
+  have k26 : SqiGen.Sponge.memcpyCtx 26 dest0 src = src := Prod.ext (k 26 (by omega)) k2
+  exact ⟨k26, k26, k 25 (Nat.le_refl _), k 25 (Nat.le_refl _)⟩
+
 /-- the incremental API (`shake256_inc_init/absorb/finalize/squeeze`), for any chunking of the message and any split
     of the output request, produces FIPS 202 SHAKE256 of the concatenation, truncated to the total request -/
 theorem shake256_inc_eq_spec (chunks : List (List UInt8)) (reqs : List Nat) :
@@ -351,6 +388,58 @@ theorem shake128_inc_eq_spec (chunks : List (List UInt8)) (reqs : List Nat) :
   rw [h.2.2.2.2.2.2.2.2.2.2.2.1, h.2.2.2.2.2.2.2.2.2.2.2.2.1, h.2.2.2.2.2.2.2.2.2.2.2.2.2.1,
     h.2.2.2.2.2.2.2.2.2.2.2.2.2.2.2.1, genF_eq]
   exact SqiProofs.Sponge.incSession_eq_spec Fips202.keccakF 168 (by decide) (by decide) (by decide) 0x1F (by decide) chunks reqs
+
+/-- **any session of the incremental API through the re-extracted wrappers**: `shake256_inc_init` on arbitrary memory, one generated
+    `shake256_inc_absorb` call per chunk (any chunking), the generated `shake256_inc_finalize`, one generated `shake256_inc_squeeze` call per
+    request (any split; the output pointer advances by the request) — every call terminates and the `reqs.sum` bytes written are
+    FIPS 202 SHAKE256 of the concatenation of the chunks, truncated to the total request; the rest of the buffer is unchanged.
+    (`runAbsorbs` / `runSqueezes` only chain the generated programs: context and counter of one call are passed to the next.) -/
+theorem gen_shake256_inc_session_eq_spec (fuel i0 ia iq : Nat) (ctx : Fips202.State) (pos : Nat) (chunks : List (List UInt8))
+    (reqs : List Nat) (h : List UInt8) (off : Nat) (hl : off + reqs.sum ≤ h.length) (h25 : 25 ≤ fuel)
+    (hfa : ∀ m ∈ chunks, m.length + 136 < fuel) (hfq : ∀ n ∈ reqs, n + 136 < fuel) :
+    ∃ v1 sp v3 res,
+      SqiGen.Sponge.shake256_inc_init.run SqiGen.Keccak.keccakF fuel ctx pos i0 = some v1 ∧
+      SqiProofs.SpongeGen.runAbsorbs (SqiGen.Sponge.shake256_inc_absorb.run SqiGen.Keccak.keccakF fuel) ia v1.s_inc v1.pos chunks = some sp ∧
+      SqiGen.Sponge.shake256_inc_finalize.run SqiGen.Keccak.keccakF fuel sp.1 sp.2 = some v3 ∧
+      SqiProofs.SpongeGen.runSqueezes (SqiGen.Sponge.shake256_inc_squeeze.run SqiGen.Keccak.keccakF fuel) iq h off v3.s_inc v3.pos reqs
+        = some res ∧
+      SqiProofs.SpongeGen.Written h res.1 off reqs.sum (Fips202.shake256 chunks.flatten reqs.sum) := by
+  have hspec := shake256_inc_eq_spec chunks reqs
+  have hp := extracted_params
+  rw [hp.2.2.2.1, hp.2.2.2.2.1, hp.2.2.2.2.2.1, hp.2.2.2.2.2.2.2.1] at hspec
+  have ha := SqiProofs.SpongeGen.runAbsorbs_eq SqiGen.Keccak.keccakF fuel 136 ia chunks incInit (by decide) hfa
+  have fin := (gen_shake_inc_finalize_eq_model SqiGen.Keccak.keccakF fuel (incAbsorbMany SqiGen.Keccak.keccakF 136 incInit chunks)).1
+  obtain ⟨h', r1, r2⟩ := SqiProofs.SpongeGen.runSqueezes_eq SqiGen.Keccak.keccakF fuel 136 iq (by decide) reqs
+    (incFinalize 136 0x1F (incAbsorbMany SqiGen.Keccak.keccakF 136 incInit chunks)) (by simp [incFinalize]) h off hl hfq
+  refine ⟨_, _, _, _, (gen_shake_inc_init_eq_model SqiGen.Keccak.keccakF fuel ctx pos i0 h25).1, ha, fin, r1, ?_⟩
+  rw [← hspec]
+  exact r2
+
+/-- **any session of the incremental API through the re-extracted wrappers**: `shake128_inc_init` on arbitrary memory, one generated
+    `shake128_inc_absorb` call per chunk (any chunking), the generated `shake128_inc_finalize`, one generated `shake128_inc_squeeze` call per
+    request (any split; the output pointer advances by the request) — every call terminates and the `reqs.sum` bytes written are
+    FIPS 202 SHAKE128 of the concatenation of the chunks, truncated to the total request; the rest of the buffer is unchanged.
+    (`runAbsorbs` / `runSqueezes` only chain the generated programs: context and counter of one call are passed to the next.) -/
+theorem gen_shake128_inc_session_eq_spec (fuel i0 ia iq : Nat) (ctx : Fips202.State) (pos : Nat) (chunks : List (List UInt8))
+    (reqs : List Nat) (h : List UInt8) (off : Nat) (hl : off + reqs.sum ≤ h.length) (h25 : 25 ≤ fuel)
+    (hfa : ∀ m ∈ chunks, m.length + 168 < fuel) (hfq : ∀ n ∈ reqs, n + 168 < fuel) :
+    ∃ v1 sp v3 res,
+      SqiGen.Sponge.shake128_inc_init.run SqiGen.Keccak.keccakF fuel ctx pos i0 = some v1 ∧
+      SqiProofs.SpongeGen.runAbsorbs (SqiGen.Sponge.shake128_inc_absorb.run SqiGen.Keccak.keccakF fuel) ia v1.s_inc v1.pos chunks = some sp ∧
+      SqiGen.Sponge.shake128_inc_finalize.run SqiGen.Keccak.keccakF fuel sp.1 sp.2 = some v3 ∧
+      SqiProofs.SpongeGen.runSqueezes (SqiGen.Sponge.shake128_inc_squeeze.run SqiGen.Keccak.keccakF fuel) iq h off v3.s_inc v3.pos reqs
+        = some res ∧
+      SqiProofs.SpongeGen.Written h res.1 off reqs.sum (Fips202.shake128 chunks.flatten reqs.sum) := by
+  have hspec := shake128_inc_eq_spec chunks reqs
+  have hp := extracted_params
+  rw [hp.2.2.2.2.2.2.2.2.2.2.2.1, hp.2.2.2.2.2.2.2.2.2.2.2.2.1, hp.2.2.2.2.2.2.2.2.2.2.2.2.2.1, hp.2.2.2.2.2.2.2.2.2.2.2.2.2.2.2.1] at hspec
+  have ha := SqiProofs.SpongeGen.runAbsorbs_eq SqiGen.Keccak.keccakF fuel 168 ia chunks incInit (by decide) hfa
+  have fin := (gen_shake_inc_finalize_eq_model SqiGen.Keccak.keccakF fuel (incAbsorbMany SqiGen.Keccak.keccakF 168 incInit chunks)).2
+  obtain ⟨h', r1, r2⟩ := SqiProofs.SpongeGen.runSqueezes_eq SqiGen.Keccak.keccakF fuel 168 iq (by decide) reqs
+    (incFinalize 168 0x1F (incAbsorbMany SqiGen.Keccak.keccakF 168 incInit chunks)) (by simp [incFinalize]) h off hl hfq
+  refine ⟨_, _, _, _, (gen_shake_inc_init_eq_model SqiGen.Keccak.keccakF fuel ctx pos i0 h25).2, ha, fin, r1, ?_⟩
+  rw [← hspec]
+  exact r2
 
 /-- `pad10*1` at bit level = the byte padding: for every rate r > 0 and every message, the FIPS 202 bit string
     M ‖ 1111 ‖ pad10*1(8r, |M| + 4) (Algorithm 9; bits packed into bytes least-significant first, Appendix B.1) is exactly
